@@ -3,340 +3,19 @@
  "id": "QBE.funcinit",
  "file": "qbe.c", "function": "funcinit", "also_functions": ["mkintconst"],
  "properties": {"C07": "contract", "C01": "contract", "C19": "safety"},
- "mode": "dfcc", "enforce": "funcinit/funcinit_contract",
+ "mode": "harness",
  "replace_calls": {"funcalloc": "rec_funcalloc", "zero": "rec_zero", "funcstore": "rec_funcstore", "funcexpr": "rec_funcexpr", "funcinst": "rec_funcinst"},
+ "variants": {"n0": ["-DV_N=0", "-DV_STRMASK=0"], "n1": ["-DV_N=1", "-DV_STRMASK=0"], "n1s": ["-DV_N=1", "-DV_STRMASK=1"], "n2": ["-DV_N=2", "-DV_STRMASK=0"], "n2s0": ["-DV_N=2", "-DV_STRMASK=1"], "n2s1": ["-DV_N=2", "-DV_STRMASK=2"]},
+ "tiers": {"thorough": {"variants": {"n0": ["-DV_N=0", "-DV_STRMASK=0"], "n1": ["-DV_N=1", "-DV_STRMASK=0"], "n1s": ["-DV_N=1", "-DV_STRMASK=1"], "n2": ["-DV_N=2", "-DV_STRMASK=0"], "n2s0": ["-DV_N=2", "-DV_STRMASK=1"], "n2s1": ["-DV_N=2", "-DV_STRMASK=2"], "n2ss": ["-DV_N=2", "-DV_STRMASK=3"], "n3": ["-DV_N=3", "-DV_STRMASK=0"], "n3s0": ["-DV_N=3", "-DV_STRMASK=1"], "n3s1": ["-DV_N=3", "-DV_STRMASK=2"], "n3s2": ["-DV_N=3", "-DV_STRMASK=4"]}, "timeout": 900}},
  "unwind": 6,
- "kind": "bounded", "bound": "initializer lists of <= 3 initializers, string initializers of <= 4 elements (element width 1, 2 or 4); offsets, sizes, bit-fields and the object size are symbolic",
+ "kind": "bounded", "bound": "quick: initializer lists of <= 2 initializers (thorough: <= 3, at most one string among three); string initializers of <= 3 elements (width 1, 2 or 4); which initializers are strings is fixed per variant; offsets, sizes, bit-fields and the object size are symbolic",
  "timeout": 200,
  "replay": false,
- "expects": ["postcondition", "unwind"],
+ "expects": ["assertion_verif", "unwind"],
  "assumes": ["callees by contract (recording stubs): funcalloc sets d->value (QBE.funcalloc); zero(addr, align, offset, end) zero-stores [offset, end) and possibly up to the next multiple of align after end, nothing else, nothing if offset >= end (QBE.zero); funcstore(t, lval, v) writes the t->size bytes at lval (read-modify-write of the storage unit for a bit-field lvalue); funcexpr(e) yields the value of e; funcinst(IADD, base, K) yields base + K",
-             "list validity (what init.c:initadd maintains, INIT.initadd): sorted by start, pairwise bit-disjoint, except that a scalar initializer may lie inside an EARLIER string initializer (C11 6.7.9p19 override of single array elements); start < end <= size; size % align == 0; align in {1,2,4,8}"]
+             "pairwise bit-disjoint lists only; an element override inside a string initializer: QBE.funcinit.patch1 / QBE.funcinit.override", "list validity (what init.c:initadd maintains, INIT.initadd): sorted by start, pairwise bit-disjoint, except that a scalar initializer may lie inside an EARLIER string initializer (C11 6.7.9p19 override of single array elements); start < end <= size; size % align == 0; align in {1,2,4,8}"]
 }
 */
 #include "qbe.c"
 #include "verif.h"
-#include "qbe_mem.h"
-
-/*
- * C07 "an automatic object given the same initialiser holds the same member values at run time"; C11 6.7.9p19:
- * "each initializer provided for a particular subobject overriding any previously listed initializer for the same
- * subobject; all subobjects that are not initialized explicitly shall be initialized implicitly the same as objects
- * that have static storage duration" (= zero, 6.7.9p10; padding bits of an object with an initializer list included,
- * p10 via p21).
- *
- * Stated for ONE arbitrary bit of the object, g_bit (universally quantified ghost, ING): after funcinit()
- *   - if no initializer covers g_bit, the last thing written to it is a zero store;
- *   - otherwise the last thing written to it is the member store of the LAST initializer in list order covering it;
- *   - no zero store ever hits a bit after a member store did (that would destroy the member);
- *   - a bit-field (read-modify-write) store only happens on storage that has been written before;
- *   - nothing at or beyond d->type->size is written.
- * The recording stubs keep exactly that much state about g_bit.
- */
-#define NI 3
-#define NS 4
-enum { ST_UNINIT, ST_ZERO, ST_MEMBER };
-
-struct ighost {
-	int st;                     /* what the last write to g_bit was                                             */
-	u64 lw_off, lw_size;        /* last member store covering g_bit: byte offset, size                          */
-	struct type *lw_t;          /*   its type                                                                    */
-	struct value *lw_v;         /*   the value stored                                                            */
-	int lw_before, lw_after;    /*   bit-field position within the unit (0,0: plain store)                       */
-	u64 at_off;                 /* offset denoted by the address temporary g_at                                  */
-	bool have_at;
-	unsigned n_alloc, n_ev;     /* funcalloc calls; zero/store/add/expr events                                   */
-	bool ok_first;              /* funcalloc came before every other event                                      */
-	bool ok_addr;               /* every store/zero goes through d->value or `add d->value, K`                  */
-	bool ok_zarg;               /* zero() is given d->type->align                                                */
-	bool ok_inrange;            /* nothing written at or beyond size                                             */
-	bool ok_nozam;              /* no zero store on a bit after a member store on it                             */
-	bool ok_rmw;                /* no bit-field store on never-written storage                                   */
-	bool ok_tq;                 /* stores are unqualified (initialisation of a const object is not an assignment) */
-};
-struct ighost h;
-
-/* the (bounded) initializer list, built by the harness */
-struct init g_in[NI];
-struct expr g_ex[NI];
-struct type g_ty[NI], g_tb[NI];
-uint_least32_t g_data[NI][NS];
-struct value g_ev[NI];          /* value of g_ex[i] as returned by the funcexpr stub */
-struct value g_objv, g_at, g_none;
-int g_n;                        /* number of initializers */
-u64 g_size, g_bit;
-int g_align;
-int g_kstar;                    /* index of the last initializer covering g_bit, -1 if none */
-struct func *g_func;
-struct decl *g_d;
-bool g_hasinit;
-
-#define ISSTR(i)     (g_ex[i].kind == EXPRSTRING)
-#define W(i)         (g_tb[i].size)                                     /* string element width: 1, 2 or 4 */
-#define WL(i)        (W(i) == 4 ? 2 : W(i) == 2 ? 1 : 0)                /* its log2: divisions by W are written as shifts (SAT cost) */
-#define NEL(i)       ((g_in[i].end - g_in[i].start) >> WL(i))           /* elements of the array the string initialises */
-#define NSTORED(i)   (NEL(i) < g_ex[i].u.string.size ? NEL(i) : g_ex[i].u.string.size)
-#define SBIT(i)      (g_in[i].start * 8 + (u64)g_in[i].bits.before)      /* first bit initialised by i */
-#define EBIT(i)      (ISSTR(i) ? (g_in[i].start + (NSTORED(i) << WL(i))) * 8 : g_in[i].end * 8 - (u64)g_in[i].bits.after)   /* one past the last */
-#define COVERS(i, b) (SBIT(i) <= (b) && (b) < EBIT(i))
-#define RBIT(i)      (g_in[i].end * 8 - (u64)g_in[i].bits.after)        /* range end as initadd sees it */
-
-/* validity of initializer i, and of the pair i < j */
-#define VALID1(i) \
-	(g_in[i].start < g_in[i].end && g_in[i].end <= g_size && g_in[i].expr == &g_ex[i] && g_ex[i].type == &g_ty[i] && \
-	 g_in[i].bits.before >= 0 && g_in[i].bits.after >= 0 && \
-	 (ISSTR(i) ? (g_in[i].bits.before == 0 && g_in[i].bits.after == 0 && g_ty[i].kind == TYPEARRAY && g_ty[i].base == &g_tb[i] && \
-	              (W(i) == 1 || W(i) == 2 || W(i) == 4) && ((g_in[i].end - g_in[i].start) & (W(i) - 1)) == 0 && \
-	              g_ex[i].u.string.size >= 1 && g_ex[i].u.string.size <= NS && g_ex[i].u.string.data == (void *)g_data[i]) \
-	            : (g_ty[i].size == g_in[i].end - g_in[i].start && g_ty[i].kind == TYPEINT && \
-	               IMP(g_in[i].bits.before != 0 || g_in[i].bits.after != 0, \
-	                   (g_ty[i].size == 1 || g_ty[i].size == 2 || g_ty[i].size == 4 || g_ty[i].size == 8) && \
-	                   (u64)g_in[i].bits.before + (u64)g_in[i].bits.after < 8 * g_ty[i].size))))
-#define INSIDE_STRING(i, j) \
-	(ISSTR(i) && !ISSTR(j) && g_in[j].bits.before == 0 && g_in[j].bits.after == 0 && g_in[j].start >= g_in[i].start && \
-	 g_in[j].end <= g_in[i].end && g_in[j].end - g_in[j].start == W(i) && ((g_in[j].start - g_in[i].start) & (W(i) - 1)) == 0)
-#define VALID2(i, j) \
-	(g_in[i].start <= g_in[j].start && (RBIT(i) <= SBIT(j) || INSIDE_STRING(i, j)))
-
-#define PRE(X) \
-	X(func != 0 && func == g_func && d != 0 && d == g_d && d->type != 0 && hasinit == g_hasinit) \
-	X(d->type->size == g_size && g_size >= 1 && g_size <= (1ull << 40) && d->type->align == g_align) \
-	X((g_align == 1 || g_align == 2 || g_align == 4 || g_align == 8) && (g_size & ((u64)g_align - 1)) == 0) \
-	X(g_n >= 0 && g_n <= NI && init == (g_n > 0 ? &g_in[0] : (struct init *)0)) \
-	X(IMP(g_n > 0, g_in[0].next == (g_n > 1 ? &g_in[1] : (struct init *)0) && VALID1(0))) \
-	X(IMP(g_n > 1, g_in[1].next == (g_n > 2 ? &g_in[2] : (struct init *)0) && VALID1(1) && VALID2(0, 1))) \
-	X(IMP(g_n > 2, g_in[2].next == (struct init *)0 && VALID1(2) && VALID2(0, 2) && VALID2(1, 2))) \
-	X(g_bit < 8 * g_size) \
-	X(g_kstar == (g_n > 2 && COVERS(2, g_bit) ? 2 : g_n > 1 && COVERS(1, g_bit) ? 1 : g_n > 0 && COVERS(0, g_bit) ? 0 : -1)) \
-	X(h.st == ST_UNINIT && h.n_alloc == 0 && h.n_ev == 0 && !h.have_at) \
-	X(h.ok_first && h.ok_addr && h.ok_zarg && h.ok_inrange && h.ok_nozam && h.ok_rmw && h.ok_tq)
-
-#define KS           g_kstar
-#define KELEM        (((g_bit >> 3) - g_in[KS].start) >> WL(KS))              /* string element holding g_bit */
-#define KCHAR        (W(KS) == 1 ? ((unsigned char *)g_data[KS])[KELEM] : W(KS) == 2 ? ((uint_least16_t *)g_data[KS])[KELEM] : g_data[KS][KELEM])
-
-#define POST(X) \
-	/* the object is allocated exactly once, before anything is stored */ \
-	X(h.n_alloc == 1 && h.ok_first) \
-	X(IMP(!g_hasinit, h.n_ev == 0)) \
-	/* all stores go to the object, inside it */ \
-	X(h.ok_addr) \
-	X(h.ok_zarg && h.ok_tq) \
-	X(h.ok_inrange) \
-	/* a zero store never destroys a member that was stored before it */ \
-	X(h.ok_nozam) \
-	/* a bit-field is inserted into storage that has been written before */ \
-	X(h.ok_rmw) \
-	/* 6.7.9p19/p21: a bit no initializer covers ends up zero-stored */ \
-	X(IMP(g_hasinit && KS < 0, h.st == ST_ZERO)) \
-	/* a covered bit ends up written by the member store of the LAST initializer covering it: */ \
-	X(IMP(g_hasinit && KS >= 0, h.st == ST_MEMBER)) \
-	/*   scalar/aggregate initializer: the value of its expression, with its type, at its offset and bit position */ \
-	X(IMP(g_hasinit && KS >= 0 && !ISSTR(KS), h.lw_off == g_in[KS].start && h.lw_t == &g_ty[KS] && h.lw_v == &g_ev[KS])) \
-	X(IMP(g_hasinit && KS >= 0 && !ISSTR(KS), h.lw_before == g_in[KS].bits.before && h.lw_after == g_in[KS].bits.after)) \
-	/*   string initializer: element i of the literal, as an element-sized constant store at start + i*w */ \
-	X(IMP(g_hasinit && KS >= 0 && ISSTR(KS), h.lw_off == g_in[KS].start + (KELEM << WL(KS)) && h.lw_t == &g_tb[KS] && h.lw_before == 0 && h.lw_after == 0)) \
-	X(IMP(g_hasinit && KS >= 0 && ISSTR(KS), h.lw_v != 0 && h.lw_v->kind == VALUE_INTCONST && h.lw_v->u.i == KCHAR)) \
-	CANARY(X, !(g_n == 3 && ISSTR(0) && KS == 1 && g_hasinit))
-
-void funcinit_contract(struct func *func, struct decl *d, struct init *init, bool hasinit)
-REQUIRES(PRE)
-__CPROVER_assigns(h, d->value, g_ev)
-ENSURES(POST);
-
-/* ------------------------------------------------------------------------------------------ recording stubs */
-
-static void
-ev(void)
-{
-	if (h.n_alloc != 1)
-		h.ok_first = 0;
-	if (h.n_ev < 1000)
-		h.n_ev++;
-}
-
-void
-rec_funcalloc(struct func *f, struct decl *d)
-{
-	if (h.n_ev != 0 || f != g_func || d != g_d)
-		h.ok_first = 0;
-	h.n_alloc++;
-	d->value = &g_objv;
-}
-
-/* byte offset denoted by an address operand; sets ok_addr = 0 if it is not an address into the object */
-static u64
-addr_off(struct value *a)
-{
-	if (a == &g_objv)
-		return 0;
-	if (a == &g_at && h.have_at)
-		return h.at_off;
-	h.ok_addr = 0;
-	return 0;
-}
-
-struct value *
-rec_funcinst(struct func *f, int op, int class, struct value *arg0, struct value *arg1)
-{
-	ev();
-	if (f != g_func || op != IADD || class != 'l' || arg0 != &g_objv || arg1 == 0 || arg1->kind != VALUE_INTCONST) {
-		h.ok_addr = 0;
-		h.have_at = 0;
-		return &g_none;
-	}
-	h.at_off = arg1->u.i;
-	h.have_at = 1;
-	return &g_at;
-}
-
-struct value *
-rec_funcexpr(struct func *f, struct expr *e)
-{
-	ev();
-	if (e == &g_ex[0]) return &g_ev[0];
-	if (e == &g_ex[1]) return &g_ev[1];
-	if (e == &g_ex[2]) return &g_ev[2];
-	return &g_none;
-}
-
-/* contract of zero(), see QBE.zero: definitely [offset, end), possibly up to the alignment boundary after end */
-void
-rec_zero(struct func *func, struct value *addr, int align, unsigned long long offset, unsigned long long end)
-{
-	u64 endup;
-
-	ev();
-	if (func != g_func || addr != &g_objv)
-		h.ok_addr = 0;
-	if (align != g_align)
-		h.ok_zarg = 0;
-	if (offset >= end)
-		return;
-	endup = SPEC_ALIGNUP(end, g_align);
-	if (endup > g_size)
-		h.ok_inrange = 0;
-	if (offset * 8 <= g_bit && g_bit < endup * 8) {
-		if (h.st == ST_MEMBER)
-			h.ok_nozam = 0;
-		if (g_bit < end * 8)
-			h.st = ST_ZERO;
-	}
-}
-
-struct value *
-rec_funcstore(struct func *f, struct type *t, enum typequal tq, struct lvalue lval, struct value *v)
-{
-	u64 off, sz, lo, hi;
-	bool isbf = lval.bits.before != 0 || lval.bits.after != 0;
-
-	ev();
-	if (f != g_func)
-		h.ok_addr = 0;
-	if (tq != QUALNONE)
-		h.ok_tq = 0;
-	off = addr_off(lval.addr);
-	sz = t->size;
-	if (off + sz > g_size)
-		h.ok_inrange = 0;
-	if (isbf) {
-		/* read-modify-write of the whole unit: every bit of it must have been written before */
-		if (off * 8 <= g_bit && g_bit < (off + sz) * 8 && h.st == ST_UNINIT)
-			h.ok_rmw = 0;
-		lo = off * 8 + (u64)lval.bits.before;
-		hi = (off + sz) * 8 - (u64)lval.bits.after;
-	} else {
-		lo = off * 8;
-		hi = (off + sz) * 8;
-	}
-	if (lo <= g_bit && g_bit < hi) {
-		h.st = ST_MEMBER;
-		h.lw_off = off;
-		h.lw_size = sz;
-		h.lw_t = t;
-		h.lw_v = v;
-		h.lw_before = lval.bits.before;
-		h.lw_after = lval.bits.after;
-	}
-	return v;
-}
-
-/* ------------------------------------------------------------------------------------------------ harness */
-
-static void
-mkinit_i(int i, u64 start, u64 end, int before, int after, bool isstr, unsigned w, unsigned nchars, u64 data)
-{
-	g_in[i].start = start;
-	g_in[i].end = end;
-	g_in[i].bits.before = before;
-	g_in[i].bits.after = after;
-	g_in[i].expr = &g_ex[i];
-	g_in[i].next = 0;
-	g_ex[i].type = &g_ty[i];
-	g_ev[i].kind = VALUE_TEMP;
-	if (isstr) {
-		g_ex[i].kind = EXPRSTRING;
-		g_ex[i].u.string.size = nchars;
-		g_ex[i].u.string.data = g_data[i];
-		g_data[i][0] = (uint_least32_t)data;                 /* arbitrary, overlapping bit patterns */
-		g_data[i][1] = (uint_least32_t)(data >> 11);
-		g_data[i][2] = (uint_least32_t)(data >> 22);
-		g_data[i][3] = (uint_least32_t)(data >> 32);
-		g_ty[i].kind = TYPEARRAY;
-		g_ty[i].base = &g_tb[i];
-		g_ty[i].size = end - start;
-		g_tb[i].kind = TYPEINT;
-		g_tb[i].size = w;
-	} else {
-		g_ex[i].kind = EXPRCONST;
-		g_ty[i].kind = TYPEINT;
-		g_ty[i].size = end - start;
-	}
-}
-
-#define IN_INIT(i) \
-	IN(u64, in_start##i); IN(u64, in_end##i); IN(int, in_before##i); IN(int, in_after##i); IN(bool, in_isstr##i); \
-	IN(unsigned, in_w##i); IN(unsigned, in_nchars##i); IN(u64, in_data##i); \
-	__CPROVER_assume(in_before##i >= 0 && in_before##i < 64 && in_after##i >= 0 && in_after##i < 64); \
-	__CPROVER_assume(in_w##i <= 4 && in_nchars##i <= NS); \
-	mkinit_i(i, in_start##i, in_end##i, in_before##i, in_after##i, in_isstr##i, in_w##i, in_nchars##i, in_data##i)
-
-void
-harness(void)
-{
-	static struct func fn;
-	static struct decl dd;
-	static struct type tt;
-	struct func *func = &fn;
-	struct decl *d = &dd;
-	struct init *init;
-#ifdef V_N
-	int in_n = V_N;                      /* one CBMC run per list length */
-#else
-	IN(int, in_n);
-#endif
-	IN(bool, hasinit);
-	IN(u64, in_size);
-	IN(int, in_align);
-	ING(u64, g_bit);
-
-	__CPROVER_assume(in_n >= 0 && in_n <= NI);
-	IN_INIT(0);
-	IN_INIT(1);
-	IN_INIT(2);
-	if (in_n > 1) g_in[0].next = &g_in[1];
-	if (in_n > 2) g_in[1].next = &g_in[2];
-	init = in_n > 0 ? &g_in[0] : 0;
-	tt.kind = TYPESTRUCT;
-	tt.size = in_size;
-	tt.align = in_align;
-	dd.type = &tt;
-	dd.kind = DECLOBJECT;
-	dd.value = 0;
-	g_n = in_n; g_size = in_size; g_align = in_align; g_func = func; g_d = d; g_hasinit = hasinit;
-	g_kstar = in_n > 2 && COVERS(2, g_bit) ? 2 : in_n > 1 && COVERS(1, g_bit) ? 1 : in_n > 0 && COVERS(0, g_bit) ? 0 : -1;
-	h.st = ST_UNINIT; h.n_alloc = 0; h.n_ev = 0; h.have_at = 0; h.at_off = 0;
-	h.lw_off = 0; h.lw_size = 0; h.lw_t = 0; h.lw_v = 0; h.lw_before = 0; h.lw_after = 0;
-	h.ok_first = h.ok_addr = h.ok_zarg = h.ok_inrange = h.ok_nozam = h.ok_rmw = h.ok_tq = 1;
-	CALL(PRE, POST, funcinit(func, d, init, hasinit));
-}
+#include "funcinit_body.h"
